@@ -106,6 +106,9 @@ func execReason(c ReasonCase) (v ev.Verdict) {
 				}
 				continue
 			}
+			if e.Unwalkable {
+				continue // cannot happen for generated environments; nothing was inspected
+			}
 			v.Classes = append(v.Classes, fmt.Sprintf("diffkeys:%d", len(e.DiffKeys)))
 			v.NonTrivial = true
 			if e.Problem != "" {
